@@ -8,7 +8,7 @@ import (
 func init() { register("C08", "other", c08) }
 
 // c08Framing are the only functions allowed to operate on the demuxer's reader (A.4).
-var c08Framing = []string{"peek", "autoDetectPacketSize", "rewind", "(*packetBuffer).next"}
+var c08Framing = []string{"peek", "autoDetectPacketSize", "discardPeeked", "rewind", "(*packetBuffer).next"}
 
 func c08(c *Ctx) {
 	r := c.R
